@@ -31,11 +31,13 @@ TRUSTED = ['numpy >= 2 casts an S-string to an integer/float dtype by calling Py
            'Python int() on bytes is DEFINED in Gallina (py_int) and compared with CPython on ~7400 strings per run',
            'datetime(...).timestamp() for aware UTC datetimes = exact microsecond count / 10^6 correctly rounded '
            '(the harness recovers the integer microseconds from the stored float64 and checks the round trip)',
-           'datetime.strptime(s, "%Y-%m-%d") modelled for ASCII text from the regular expressions of CPython 3.12',
+           'datetime.strptime(s, "%Y-%m-%d") modelled from the regular expressions of CPython 3.12 on every byte string: '
+           'bytes.decode() as strict UTF-8, \\d and int() over the 68 runs of decimal digits (category Nd) of Unicode 15.0 '
+           '(the table is exercised run by run, with both neighbours of every run, on each check)',
            'h5py/HDF5 storage of the destination fields (append-only lists in the model)']
 ASSUMPTIONS = ['cells lie inside the column\'s region of column_vals (what the CSV reader guarantees)',
                'category keys are distinct (a dict) and category codes are in 0..127',
-               'cell texts for bool/date/datetime columns are ASCII; no NUL bytes inside cells',
+               'cell texts for bool/datetime columns are ASCII (date columns: any bytes); no NUL bytes inside cells',
                'int64 values on the wire are limited to |v| < 2^62 (OCaml native ints)']
 
 _np = _fi = _ops = _sess = _ds = _parsers = _ls = None
@@ -263,6 +265,8 @@ def run(case):
             if type(e) is Exception and k == 'bool':
                 m = str(e)
                 return [['NumericException', 1 if 'can not be empty' in m else 2 if 'can not be parsed' in m else 0], None]
+            if isinstance(e, UnicodeDecodeError) and k == 'date':
+                raise ValueError(str(e))        # value.decode(): a ValueError subclass; the model has one code for both
             raise
         return [_read(case, df), None]
     finally:
@@ -468,6 +472,23 @@ def features(case, model):
                 t = b(c).strip(WS)
                 for rx, kind in _RX:
                     if rx.match(t): f.append('layout:%s:%d' % (kind, len(t)))
+    if k == 'date':
+        for ch in chunks:
+            for c in ch:
+                t = b(c).strip(WS)
+                if not t: f.append('date:blank')
+                elif re.fullmatch(rb'\d{4}-\d\d-\d\d', t): f.append('date:YYYY-MM-DD')
+                elif re.fullmatch(rb'\d{4}-\d\d?-[ \d]?\d', t): f.append('date:short-month-or-day')
+                if t != b(c): f.append('date:blank-padded')
+                if any(x >= 128 for x in t):
+                    try:
+                        t.decode()
+                        f.append('date:non-ascii-utf8')
+                    except UnicodeDecodeError:
+                        f.append('date:broken-utf8')
+        if any(x >= 128 for ch in chunks for c in ch for x in b(c)) and not isinstance(model, str):
+            f.append('date:unicode-digits-accepted')
+        if isinstance(model, str): f.append('date:' + model)
     return sorted(set(f))
 
 
@@ -498,7 +519,9 @@ TABLES_EXTRA = [
 ]
 BOOL_WORDS = ['1', '0', 'y', 'n', 't', 'f', 'on', 'no', 'yes', 'off', 'true', 'false']
 BOOL_BAD = ['', ' ', '   ', '2', 'x', 'ye', 'yess', 'tru', 'truee', 'fals', 'falsee', 'of', 'o', 'oon', 'nn', 'y s', 'tr ue',
-            'yes!', 'Y.', '10', '00', 'nope', 'offf', 'TRUEE', '\t1', '1\t']
+            'yes!', 'Y.', '10', '00', 'nope', 'offf', 'TRUEE', '\t1', '1\t',
+            # E2 (bool_transform_table): only byte 32 is trimmed; six bytes and more; blanks inside
+            '\n', ' \t ', 'yes\n', 'false ', '  FaLsE', 'falsey', ' o n ', 'o  ff', '1 1', 'true  x']
 INT_POOL = ['0', '1', '-1', '+5', ' 12', '12 ', '  7  ', '\t8', '0012', '-0', '1_000', '1__0', '_1', '1_', '1e3', '1.5', '1.0',
             '0x10', 'abc', '12abc', '- 5', '--5', '+-5', '1 2', '', ' ', '   ', '127', '128', '-128', '-129', '255', '256',
             '300', '32767', '32768', '-32768', '-32769', '65535', '65536', '2147483647', '2147483648', '-2147483648',
@@ -560,7 +583,21 @@ DATE_POOL = ['2020-06-15', '1970-01-01', '1969-12-31', '2000-02-29', '2100-02-28
              '2020-01-5', '2020-1-05', '2020-12-31', '2020-10-10', '2020-11-30', '2020-01- 5', '', ' ', ' 2020-06-15 ',
              '2020-13-01', '2021-02-29', '2100-02-29', '2020-00-10', '2020-06-00', '2020-06-31', '2020-06-32', '2020-06-150',
              '20-06-15', '02020-06-15', '2020/06/15', '2020-06-15 00:00:00', 'garbage', '2020-06', '2020-0a-01',
-             '0000-01-01', '2020-06-1x', '2020--06-15', '2020-06-15-', '2020- 6-15', '2020-06-3']
+             '0000-01-01', '2020-06-1x', '2020--06-15', '2020-06-15-', '2020- 6-15', '2020-06-3',
+             # E2 (date_cell_table / date_invalid_raises): every strip() byte, the three day spellings, stray separators
+             '\t2020-06-15\n', '2020-06-15\x0b\x0c\r', '\t \n', '2020-1--5', '2020-1-5-', '2020-1- 5', '2020-12- 1', '2020-10-5',
+             '2020-02-30', '2020-06- 15', '2020-06-015', '2020-6- 0', '2020-06-30 x', '-2020-06-15', '2020-06-15 \t 1']
+
+
+ND_ZEROS = [48, 1632, 1776, 1984, 2406, 2534, 2662, 2790, 2918, 3046, 3174, 3302, 3430, 3558, 3664, 3792, 3872, 4160, 4240,
+            6112, 6160, 6470, 6608, 6784, 6800, 6992, 7088, 7232, 7248, 42528, 43216, 43264, 43472, 43504, 43600, 44016,
+            65296, 66720, 68912, 69734, 69872, 69942, 70096, 70384, 70736, 70864, 71248, 71360, 71472, 71904, 72016, 72784,
+            73040, 73120, 73552, 92768, 92864, 93008, 120782, 120792, 120802, 120812, 120822, 123200, 123632, 124144,
+            125264, 130032]          # the zeros of the Nd runs, as in Model/Transform.v
+
+
+def _u(t):
+    return t.encode('utf-8', 'surrogatepass').decode('latin-1')
 
 
 def gen(tier, rng):
@@ -706,6 +743,17 @@ def gen(tier, rng):
             else:
                 cells.append(rng.choice(DATE_POOL))
         yield {'k': 'date', 'chunks': _rand_split(rng, cells, 4), 'lay': [rng.randint(0, 3), rng.randint(0, 2), rng.randint(0, 2)]}
+
+    # ---- date, non-ASCII: every run of Unicode decimal digits (inside, just below, just above), broken UTF-8
+    for z in ND_ZEROS:
+        yield {'k': 'date', 'chunks': [[_u(chr(z + 2) + chr(z) + chr(z + 1) + chr(z + 9) + '-12-1' + chr(z + 5))]], 'lay': [0, 0, 0]}
+        yield {'k': 'date', 'chunks': [[_u('200' + chr(z - 1) + '-01-01')]], 'lay': [1, 0, 1]}
+        yield {'k': 'date', 'chunks': [[_u('2020-01-2' + chr(z + 10))]], 'lay': [0, 1, 0]}
+    for t in ['\xff2020-01-05', '2020-01-05\xc3', '\xc0\xb1020-01-05', '\xe0\x9f\xbf020-01-05', '\xed\xa0\x80020-01-05',
+              '\xf4\x90\x80\x80020-01-0', '\xf0\x8f\xbf\xbf', '2020-01-0\x80', _u('2020-01-05\xe9'), _u('\u0662\u0660\u0662\u0660-01-05'),
+              _u('2020-\u0660\u0661-05'), _u('2020-01-\u0660\u0665'), _u('2020-01-3\uff11'), _u('2020\u2010' + '01-05')]:
+        yield {'k': 'date', 'chunks': [['2020-06-15', t], ['']], 'lay': [1, 1, 1]}
+        yield {'k': 'date', 'chunks': [[t]], 'lay': [0, 0, 0]}
 
     # ---- end to end through load_schema + read_csv_with_schema_dict (cells must survive the CSV reader unchanged)
     def csv_cases():
